@@ -76,8 +76,11 @@ def r2(run, db):
                 thr = lambda cc: 0 if cc.matches(r"Message::from_boxed$|Result::<T, E>::unwrap$|Option::<T>::unwrap$|Result::<T, E>::expect$") else None
                 roots = g.origins(s["rv"]["ops"][0], through=thr)
                 if g.id == f.id:
-                    good = roots and all(r["k"] == "arg" and r["local"] == 2 for r in roots)
-                    what = "the message parameter"
+                    # the caller's message, or -- the channel refusal written out in the body -- what the channel's own
+                    # send() handed back in its Err
+                    from_chan = lambda r: r["k"] == "call" and r["call"].matches(r"UnboundedSender::<T>::send$") and any(e.startswith("d:1") for e in r.get("proj", []))
+                    good = roots and all((r["k"] == "arg" and r["local"] == 2) or from_chan(r) for r in roots)
+                    what = "the message parameter" if not any(from_chan(r) for r in roots) else "the payload of the channel's SendError"
                 else:
                     # error-mapping closure: parameter 2 is the channel's SendError<MuxedMessage>
                     good = roots and all(r["k"] == "arg" and r["local"] == 2 for r in roots) and "SendError" in g.local_ty(2)
@@ -115,6 +118,11 @@ def r3(run, db):
         run.check(okret, key + "|result-from-enqueue", "the function's result on the accept path is the channel send's own result (mapped)", "the accept path's result does not come from the channel send", f.where())
         # a value that was enqueued is not also handed back: SendErr(param) sites are not reachable after the enqueue
         for site, s in f.aggregates(adt="MessagingErr", variant="SendErr"):
+            thr2 = lambda cc: 0 if cc.matches(r"Message::from_boxed$|Result::<T, E>::unwrap$|Option::<T>::unwrap$|Result::<T, E>::expect$") else None
+            rts = f.origins(s["rv"]["ops"][0], through=thr2)
+            if rts and all(r["k"] == "call" and r["call"].bb == q.bb and any(e.startswith("d:1") for e in r.get("proj", [])) for r in rts):
+                run.ok(key + "|handback-of-channel-refusal", "the SendErr built after the enqueue call carries what the channel itself refused (its Err payload): not enqueued", f.where(s.get("l")))
+                continue
             run.check(not f.reaches_after(q.site, site), key + "|no-handback-after-enqueue", "no SendErr(message) is built after the enqueue", "a message can be enqueued and also handed back", f.where(s.get("l")))
 
 
